@@ -135,6 +135,9 @@ def oracle(case, recs, out, stats):
                     inputs_ok = inputs_ok and check_inputs(impl, inputs, op, hist, out)
                     continue
                 before = parse_values(impl.observe("values"))
+                if op[0] in ("copycell", "copyspace", "setref", "delref", "shadow", "unshadow"):
+                    inputs_ok = _copy_or_ref_edit(impl, op, before, inputs, hist, out, stats) and inputs_ok
+                    continue
                 nodes, edges = parse_graph(impl.observe("graph"))
                 cid = int(op[1])
                 impl.log = []
@@ -234,10 +237,48 @@ def oracle(case, recs, out, stats):
     return nontrivial
 
 
+def _copy_or_ref_edit(impl, op, before, inputs, hist, out, stats):
+    """A copy (Cells.copy, UserSpace.copy) takes the ASSIGNED values of its source with it, as inputs of the copy, and
+    nothing else: the calculated values of the source are not values of the copy.
+    A reference edit clears calculated values only: every input stays, with its value."""
+    from ..execworld import COPY_BASE
+    if op[0] == "copycell":
+        pairs = [(int(op[1]), int(op[3]))]
+    elif op[0] == "copyspace":
+        pairs = [(c, COPY_BASE + c) for c, k in sorted(impl.cell_space.items()) if k == 1 and impl.exists(c)]
+    else:
+        pairs = []
+    res = impl.apply(op)
+    after = parse_values(impl.observe("values"))
+    if pairs and res == "ok":
+        stats["oracle_copies_examined"] += 1
+        copied = {}
+        for src, dst in pairs:
+            for x in sorted(inputs):
+                if x.startswith("%d[" % src):
+                    y = "%d[%s" % (dst, x.split("[", 1)[1])
+                    copied[y] = before[x]
+                    inputs.add(y)
+        # a new cells changes the namespace of its space: calculated values may be discarded by that; none may
+        # appear or change, every assigned value stays, and the copy holds exactly the assigned values of its source
+        odd = {x: v for x, v in after.items() if copied.get(x, before.get(x)) != v}
+        lost = {x: v for x, v in list(before.items()) + list(copied.items()) if x in inputs and after.get(x) != v}
+        if odd or lost:
+            out.fail("after %s the copy does not hold exactly the assigned values of its source (as inputs): "
+                     "unexpected %s, missing %s" % (" ".join(op), dict(list(odd.items())[:4]), dict(list(lost.items())[:4])), hist)
+            return False
+    else:
+        lost = {x: v for x, v in before.items() if x in inputs and after.get(x) != v}
+        if lost:
+            out.fail("after %s assigned values are gone or changed: %s" % (" ".join(op), lost), hist)
+            return False
+    return check_inputs(impl, inputs, op, hist, out)
+
+
 def _assigned_under_every_spelling(impl, case, cid, key, op, hist, out, stats):
     """the assigned value is what the cells returns for those arguments – positional, by keyword, defaults left out,
     as a subscript – without running a formula, and the element is an input under every spelling"""
-    c = next(x for x in case["cells"] if x["id"] == cid)
+    c = next(x for x in case["cells"] if x["id"] == X.origin_of(case["ops"], cid))
     cells = impl.cells[cid]
     v = op[op.index("=") + 1]
     for label, pos, kw in X.all_spellings(c["nparams"], c.get("defaults") or [], key):
@@ -407,9 +448,40 @@ def recalc_cases():
              "ops": ops, "label": "recalc/" + label} for label, ops in hists.items()]
 
 
+def dag_enumeration(ctx, out, stats):
+    """every dependency DAG on 4 cells (thorough: 5; quick: a rotating slice of the 5-cells shapes too) x every order
+    of requests x every cells as the edited element (computed / input) x every value edit (dagenum.py).  A failing
+    scenario is judged again as an ordinary case by `oracle` (fresh model, own search over the recorded edges), which
+    gives the replayable history; if that does not fail, the scenario is reported as the enumerator saw it."""
+    import collections
+    from .. import core, dagenum
+
+    def on_failure(case, texts):
+        sub = core.Outcome()
+        oracle(case, [], sub, collections.Counter())
+        if sub.failures:
+            for f in sub.failures[:2]:
+                out.fail(f["what"], f["history"], key=f.get("key"))
+        else:
+            out.fail("%s: %s" % (case["label"], texts[0]), dict(X.case_json(case), scenario="dag-enum"))
+    dagenum.enumerate_all(ctx, on_failure, stats, n=4)
+    if not out.failures:
+        dagenum.enumerate_all(ctx, on_failure, stats, n=5, slice_k=4, shape_k=8)
+
+
 def run(ctx, out):
-    stats = X.run_family(ctx, out, CFG, oracle, 120, 2000, structured=scenario_cases() + spelled_edit_cases() + recalc_cases())
+    from .. import dagenum
+    stats = X.run_family(ctx, out, CFG, oracle, 120, 2000,
+                         structured=scenario_cases() + spelled_edit_cases() + recalc_cases() + X.copy_cases()
+                         + dagenum.sample_cases(ctx, 4, ctx.n(40, 400)))
     overwrite_equal(out, stats)
+    dag_enumeration(ctx, out, stats)
+    for k in ("dag_shapes", "dag_orders", "dag_scenarios"):
+        out.coverage["input_distribution"][k] = stats[k]
+    out.coverage["rule"] += ("; small-scope exhaustive: every dependency DAG on 4 cells (upper-triangular adjacency; thorough: "
+                             "5 cells, quick: a rotating eighth of them) x every distinct order of requests x every cells "
+                             "edited (computed / input) x assignment / clear_at / clear / clear_all / assignment with "
+                             "recalculation, judged from the shape alone")
     out.coverage["input_distribution"]["overwrite_equal_scenarios"] = stats["overwrite_equal_scenarios"]
     out.assumptions.append("recalculation option on: modelx evaluates the former leaf dependents in the iteration "
                            "order of a Python set; the model takes the order of its graph search.  When a "
@@ -418,10 +490,31 @@ def run(ctx, out):
                                                                  stats["recalc_corr_histories"]))
 
 
+def _replay_dag(h, out):
+    """a scenario of the DAG enumeration the ordinary oracle did not fail on: run it as the enumerator does"""
+    import re
+    from .. import dagenum
+    from ..impl import close_all
+    m = re.match(r"dag/(\S*) arity=(\d) (asc|desc) order=(\d+) (\S+) c(\d+)( input)?$", h.get("label", ""))
+    if not m:
+        return
+    callees = [[int(x) for x in part.split(",") if x] for part in m.group(1).split("|")]
+    close_all()
+    sm = dagenum.ShapeModel(callees, int(m.group(2)), m.group(3) == "desc")
+    try:
+        fails = dagenum.run_scenario(sm, tuple(int(c) for c in m.group(4)), int(m.group(6)), bool(m.group(7)), m.group(5))
+    finally:
+        sm.close()
+    for t in fails[:1]:
+        out.fail("%s: %s" % (h["label"], t), h)
+
+
 def replay(ctx, payload, out):
     import collections
     h = payload.get("history") or {}
     if isinstance(h, dict) and h.get("scenario") == "overwrite_equal":
         overwrite_equal(out, collections.Counter())
         return
+    if isinstance(h, dict) and h.get("scenario") == "dag-enum":
+        _replay_dag(h, out)
     X.replay_family(ctx, payload, out, CFG, oracle)
